@@ -57,12 +57,20 @@ def relate_factory(fixed_of):
     return relate
 
 
+DOCUMENTED = ["NLOPT_GN_DIRECT", "NLOPT_GN_DIRECT_L", "NLOPT_GN_DIRECT_L_RAND", "NLOPT_GN_DIRECT_NOSCAL", "NLOPT_GN_DIRECT_L_NOSCAL",
+              "NLOPT_GN_DIRECT_L_RAND_NOSCAL", "NLOPT_GN_ORIG_DIRECT", "NLOPT_GN_ORIG_DIRECT_L", "NLOPT_GD_STOGO", "NLOPT_GD_STOGO_RAND",
+              "NLOPT_LN_PRAXIS", "NLOPT_GN_CRS2_LM", "NLOPT_LN_COBYLA", "NLOPT_LN_NEWUOA", "NLOPT_LN_NEWUOA_BOUND", "NLOPT_LN_NELDERMEAD",
+              "NLOPT_LN_SBPLX", "NLOPT_LN_BOBYQA", "NLOPT_GN_ISRES", "NLOPT_GN_ESCH", "NLOPT_GN_AGS"]
+
+
 def run(ctx):
-    bdir, A = runcheck.setup(ctx, ["Wrap:elim_equiv", "C01:elimdim"])
+    bdir, A = runcheck.setup(ctx, ["Wrap:elim_equiv", "C01:elimdim", "C11"])
     if bdir:
         ctx.algnames = A.names
         rng = random.Random(ctx.seed * 41 + 11)
-        elim = [A.name(i) for i in ctx.alg["elim"]]
+        # the algorithms the property names (Props/C11.lean pins the regenerated switch of elimdim_wrapcheck to this list; the pair
+        # runs use the documented list, not the regenerated one, so that a dropped case label shows up as a failing pair)
+        elim = [nm for nm in DOCUMENTED if nm in A.idx]
         pa, pb, fixed_of = [], [], {}
         maxn = 8 if ctx.thorough else 6
         for nm in elim:
